@@ -17,8 +17,11 @@ RULE = ("seeded history of 0-3 commits, then one commit under test (append in 3 
         "delete, delete+append, expire, expire+append, delete_snapshot) on local / CAS-S3 / non-CAS S3; executed "
         "once fault-free to enumerate its storage seam calls, then re-executed from a restored copy with ONE fault "
         "at seam call k: exception before effect (local: OSError EIO/ENOSPC/EACCES; S3: transient burst beyond the "
-        "6-attempt budget, permanent AccessDenied, EndpointConnectionError), exception after effect (S3 writes), "
-        "disk-full, KeyboardInterrupt/SystemExit before or after the effect; selected doubles add a second fault "
+        "6-attempt budget, permanent AccessDenied, EndpointConnectionError), exception after effect (S3 writes; incl. 412 "
+        "PreconditionFailed after a conditional PUT took effect = SDK-level re-send of a landed request), "
+        "disk-full, short write (os.write accepts 50 % / 90 %), KeyboardInterrupt/SystemExit before or after the effect and at "
+        "sampled LINE events inside datashard code (sys.settrace; NOP lines are not injection points); in 40 % of the "
+        "KeyboardInterrupt plans the interrupted process SURVIVES and must still read and write; selected doubles add a second fault "
         "class armed after the first (cleanup removes fail / lock release fails / marker deletes fail). quick "
         "samples k, thorough sweeps every k. One evaluation = one (history, op, fault mode, k). Distinct = SHA-1 of "
         "the write/lock/pointer events; non-trivial = the fault fired and the commit did not simply succeed "
@@ -26,8 +29,10 @@ RULE = ("seeded history of 0-3 commits, then one commit under test (append in 3 
 ASSUMPTIONS = common.BASE_ASSUMPTIONS + [
     "os/fcntl calls fail only with OSError (os.path.exists never raises: a failing stat reads as False); S3 calls "
     "only with botocore exception types",
-    "interrupt granularity is the seam boundary (before / after the effect of each storage call)",
-    "after KeyboardInterrupt/SystemExit the interrupted process ends; usability is checked from a fresh process",
+    "interrupt granularity: the seam boundary (before / after the effect of each storage call) and, in lineint modes, line events "
+    "of datashard code except those whose instruction is a NOP (the interpreter never delivers a signal there)",
+    "after SystemExit the interrupted process ends; after KeyboardInterrupt it ends or (survive plans) lives on and uses a new handle; "
+    "usability is also checked from a fresh process",
     "post-state = model.apply(pre-state, op) checked by the refinement oracle (ids/timestamps from the observed file)",
 ]
 COMPONENTS = common.COMPONENTS
